@@ -303,6 +303,24 @@ func newUniverse(r *core.R) *universe {
 		e.variants = append(e.variants, variant{desc: "INVALID no interface name", invalid: true, mk: func() interface{} {
 			return &model.WorkloadEndpoint{State: "active", Name: "", ProfileIDs: []string{"p0"}, Labels: lbl(map[string]string{"a": "a"}), IPv4Nets: []net.IPNet{mustNet("10.0.0.9/32")}}
 		}})
+		// invalid: rejected by the generic schema validation only (the endpoint-specific checks would accept it):
+		// an otherwise plausible endpoint with labels, profiles and addresses that selectors would match
+		ilab := labelChoices[src.Intn(len(labelChoices), "ep_inv_labels")]
+		iprof := profileLists[src.Intn(len(profileLists), "ep_inv_profiles")]
+		iip := wepIPs[src.Intn(len(wepIPs), "ep_inv_ip")]
+		ikind := src.Intn(3, "ep_inv_kind")
+		e.variants = append(e.variants, variant{desc: fmt.Sprintf("INVALID schema kind=%d labels=%v profiles=%v ip=%s", ikind, ilab, iprof, iip), invalid: true, mk: func() interface{} {
+			w := &model.WorkloadEndpoint{State: "active", Name: "cali" + id, ProfileIDs: append([]string(nil), iprof...), Labels: lbl(ilab), IPv4Nets: []net.IPNet{mustNet(iip)}}
+			switch ikind {
+			case 0: // named port with port number 0
+				w.Ports = []model.EndpointPort{{Name: "http", Protocol: numorstring.ProtocolFromStringV1("tcp"), Port: 0}}
+			case 1: // named port with a protocol that cannot carry ports
+				w.Ports = []model.EndpointPort{{Name: "http", Protocol: numorstring.ProtocolFromStringV1("icmp"), Port: 80}}
+			default: // named port whose name is not a valid name
+				w.Ports = []model.EndpointPort{{Name: "Bad Port Name!", Protocol: numorstring.ProtocolFromStringV1("tcp"), Port: 80}}
+			}
+			return w
+		}})
 		return e
 	}
 	for i := 0; i < nLocal; i++ {
